@@ -79,6 +79,22 @@ def register_sweep(tier="quick", seed=0):
                     got = _val(sig)
                     if got != want:
                         fails.setdefault("Output._on_write_", f"Output({tag}) holding {old:#x}, write data={data:#010x} strb={strb:04b}: signal becomes {got:#x}, expected {want:#x}")
+    # access kinds: what `readonly=True` / `writeonly=True` declares on a register class is what the placed
+    # (specialised) class T[offset] reports -- connect_addr_map selects the readable / writable registers by these flags
+    class _RO(reg32.Register, readonly=True):
+        f: reg32.Field[7:0]
+
+    class _WO(reg32.Register, writeonly=True):
+        g: reg32.MemField[7:0]
+
+    for T in (reg32.Input, reg32.Output, reg32.Word, reg32.MemWord, reg32.Register, _RO, _WO):
+        for off in (0x0, 0x10):
+            P = T[off]
+            n += 1
+            for flag in ("_readable_", "_writable_"):
+                declared, placed = getattr(T, flag), getattr(P, flag)
+                if bool(placed) != bool(declared):
+                    fails.setdefault("access-kind-flags", f"{T.__name__}.{flag} is {declared!r} but {T.__name__}[{off:#x}].{flag} is {placed!r}: a {'readonly' if flag == '_writable_' else 'writeonly'} register is treated as {'writable' if flag == '_writable_' else 'readable'}")
     violations = []
     for key, what in sorted(fails.items()):
         oid = f"C20/register-sweep[{key}]#bounded"
